@@ -80,3 +80,42 @@ package bloomsearch
 //@ requires 0 <= shape1.rows && 0 <= shape2.rows && 0 <= shape1.uncompressedSize && 0 <= shape2.uncompressedSize
 //@ requires shape1.rows < 4611686018427387904 && shape2.rows < 4611686018427387904 && shape1.uncompressedSize < 4611686018427387904 && shape2.uncompressedSize < 4611686018427387904
 //@ ensures result <==> (shape1.rows + shape2.rows <= b.config.MaxRowGroupRows && shape1.uncompressedSize + shape2.uncompressedSize <= b.config.MaxRowGroupBytes)
+
+// ---------------------------------------------------------------------------
+// query.go — prefilter evaluation (C04)
+//
+// A row value is V = -inf | fin(v) | +inf, written as the ghost pair (inf, v)
+// with inf in {-1, 0, 1}; NaN is excluded by the property statement.
+//   lo(V) / hi(V)   the int64 bounds ingest records for V (floor / ceil, clamped)
+//   covers(idx, V)  the block's range for the key contains V's recorded bounds
+//   sat(c, V)       V satisfies the numeric condition c, over the reals
+// ---------------------------------------------------------------------------
+
+//@ pred lo(inf int, v real) = inf < 0 ? MinInt64 : (inf > 0 ? MaxInt64 : clampZ(floor(v)))
+//@ pred hi(inf int, v real) = inf < 0 ? MinInt64 : (inf > 0 ? MaxInt64 : clampZ(ceil(v)))
+//@ pred covers(idx MinMaxIndex, inf int, v real) = idx.Min <= lo(inf, v) && hi(inf, v) <= idx.Max
+//@ pred vlt(inf int, v real, x int) = inf < 0 || (inf == 0 && v < real(x))
+//@ pred vgt(inf int, v real, x int) = inf > 0 || (inf == 0 && v > real(x))
+//@ pred veq(inf int, v real, x int) = inf == 0 && v == real(x)
+//@ pred vin(c NumericCondition, inf int, v real) = exists k :: 0 <= k && k < len(c.Values) && veq(inf, v, c.Values[k])
+//@ pred sat(c NumericCondition, inf int, v real) =
+//@      (c.Operator == OpEqual && veq(inf, v, c.Value))
+//@   || (c.Operator == OpNotEqual && !veq(inf, v, c.Value))
+//@   || (c.Operator == OpGreaterThan && vgt(inf, v, c.Value))
+//@   || (c.Operator == OpGreaterThanEqual && !vlt(inf, v, c.Value))
+//@   || (c.Operator == OpLessThan && vlt(inf, v, c.Value))
+//@   || (c.Operator == OpLessThanEqual && !vgt(inf, v, c.Value))
+//@   || (c.Operator == OpIn && vin(c, inf, v))
+//@   || (c.Operator == OpNotIn && !vin(c, inf, v))
+//@   || (c.Operator == OpBetween && !vlt(inf, v, c.Min) && !vgt(inf, v, c.Max))
+//@   || (c.Operator == OpNotBetween && (vlt(inf, v, c.Min) || vgt(inf, v, c.Max)))
+
+//@ func EvaluateMinMaxCondition
+//@ props C04 C01
+//@ ghost inf int
+//@ ghost v real
+//@ requires -1 <= inf && inf <= 1
+//@ requires covers(minMaxIndex, inf, v)
+//@ requires sat(condition, inf, v)
+//@ loop 0 invariant forall k :: 0 <= k && k <= $index ==> !(minMaxIndex.Min <= condition.Values[k] && condition.Values[k] <= minMaxIndex.Max)
+//@ ensures result
